@@ -15,7 +15,8 @@ Import ListNotations.
 Require Import MText MkModel.
 Require Names.
 Require Import VParse SpecParse SpecSound SpecContains.
-Require Import ReqModel ReqSpec ReqScanP ReqTokP ReqListP ReqMarkP ReqParseP ReqSetP ReqTopP ReqEqP ReqSoundP ReqRoundP.
+Require Import VComplete VTop VTop2.
+Require Import ReqModel ReqSpec ReqScanP ReqTokP ReqListP ReqMarkP ReqParseP ReqSetP ReqTopP ReqEqP ReqSoundP ReqRoundP ReqPep440P.
 Open Scope N_scope.
 
 (* 1. however whitespace is laid out, the grammar recovers name, extras, the text of exactly the clause list, URL and the marker as the
@@ -115,6 +116,37 @@ Theorem C08_hash_respects_eq {H : Type} (hash : rq_key -> H) a b : req_eq a b = 
 Proof. intros E. apply req_eq_key in E. now rewrite E. Qed.
 Print Assumptions C08_hash_respects_eq.
 
+(* 10. which clauses are valid (hypothesis rq_wf_clause of 1-3): every PEP 440 version spelling (greedy normal form, the completeness
+       domain of C02/C12) under an operator that admits it, prefix matches under == / !=, and any text under ===; conversely a valid
+       clause has a form of the PEP 440 operator table *)
+Theorem C08_version_clause_valid o ws sp : gnf sp = true -> ws_l sp = [] -> ws_r sp = [] -> forallb is_ws ws = true -> admits o sp ->
+  rq_wf_clause {| c_op := o; c_ws := ws; c_body := BPub (pub_of sp) (match o with OEq | ONe => sloc sp | _ => None end) |} /\
+  r_body (BPub (pub_of sp) (match o with OEq | ONe => sloc sp | _ => None end)) = render sp.
+Proof. exact (version_clause_valid o ws sp). Qed.
+Print Assumptions C08_version_clause_valid.
+Theorem C08_wildcard_clause_valid o ws v e r0 rs : o = OEq \/ o = ONe -> forallb is_ws ws = true ->
+  (match v with Some c => lc c = 118 | None => True end) -> (match e with Some x => wf_digits x = true | None => True end) ->
+  wf_digits r0 = true -> forallb wf_digits rs = true ->
+  rq_wf_clause {| c_op := o; c_ws := ws; c_body := BWild v e r0 rs |}.
+Proof. exact (wildcard_clause_valid o ws v e r0 rs). Qed.
+Print Assumptions C08_wildcard_clause_valid.
+Theorem C08_arbitrary_clause_valid ws t : forallb is_ws ws = true -> t <> [] -> forallb arb_char t = true -> rq_no_comma t = true ->
+  rq_wf_clause {| c_op := OArb; c_ws := ws; c_body := BArb t |}.
+Proof. exact (arbitrary_clause_valid ws t). Qed.
+Print Assumptions C08_arbitrary_clause_valid.
+Theorem C08_valid_clause_is_pep440 c : rq_wf_clause c -> wf_body (c_op c) (c_body c).
+Proof. exact (valid_clause_is_pep440 c). Qed.
+Print Assumptions C08_valid_clause_is_pep440.
+
+(* 11. str() is a deterministic rendering: it depends on the extras as a set and on the clauses as a multiset (no two equal clauses
+       with different spellings - otherwise the first one supplied is printed, finding D33) *)
+Theorem C08_str_deterministic a b :
+  q_name a = q_name b -> (forall e, In e (q_extras a) <-> In e (q_extras b)) ->
+  Permutation.Permutation (q_specs a) (q_specs b) -> NoDup (map rq_ckey (q_specs a)) ->
+  q_url a = q_url b -> q_marker a = q_marker b -> req_str a = req_str b.
+Proof. exact (req_str_deterministic a b). Qed.
+Print Assumptions C08_str_deterministic.
+
 (* ---- non-vacuity ---- *)
 Definition T (s : list N) := s.
 (* " Foo.Bar [ a ,b]\t( >= 1.0 , ==2.* ,=== x ) ;os_name=='a' " : every hypothesis of theorems 1-2 holds for this spelling *)
@@ -152,6 +184,14 @@ Proof.
   - cbn [q_marker rq_marker_rt]. eexists. split; [vm_compute; reflexivity|]. split; reflexivity.
   - reflexivity.
 Qed.
+(* "1!2.0rc1.post2" is a version spelling in greedy normal form: a valid body for >= *)
+Example C08_nonvacuous_clause :
+  let sp := {| ws_l := []; vpre := None; ep := Some [49]; rel0 := [50]; rels := [[48]];
+               spre := Some {| l_sep1 := None; l_word := [114;99]; l_sep2 := None; l_num := [49] |};
+               spost := Some (PostWord {| l_sep1 := Some 46; l_word := [112;111;115;116]; l_sep2 := None; l_num := [50] |});
+               sdev := None; sloc := None; ws_r := [] |} in
+  gnf sp = true /\ admits OGe sp /\ render sp = [49;33;50;46;48;114;99;49;46;112;111;115;116;50].
+Proof. cbv zeta. repeat split. Qed.
 (* the known gap D7 is real: the model (like the implementation) rejects "foo === z, >=1", a valid PEP 508 string *)
 Example C08_D7_witness : Requirement [102;111;111;32;61;61;61;32;122;44;32;62;61;49] = RqInvalid.
 Proof. vm_compute. reflexivity. Qed.
